@@ -32,8 +32,14 @@ fn bin() -> Result<String, Fail> {
 }
 
 pub fn run_cli(args: &[String], timeout: Duration) -> Result<Run, Fail> {
+    run_cli_fed(args, timeout, None)
+}
+
+/// `feed`: bytes written to the standard input of the tool in the given pieces, with a pause of
+/// 40 ms after each piece (a pipe whose writer is slower than the reader), then end of file
+pub fn run_cli_fed(args: &[String], timeout: Duration, feed: Option<Vec<Vec<u8>>>) -> Result<Run, Fail> {
     let mut cmd = Command::new(bin()?);
-    cmd.args(args).stdin(Stdio::null()).stdout(Stdio::piped()).stderr(Stdio::piped());
+    cmd.args(args).stdin(if feed.is_some() { Stdio::piped() } else { Stdio::null() }).stdout(Stdio::piped()).stderr(Stdio::piped());
     // cap the address space of the tool (a BER run that cannot terminate fills an unbounded channel)
     unsafe {
         use std::os::unix::process::CommandExt;
@@ -44,6 +50,18 @@ pub fn run_cli(args: &[String], timeout: Duration) -> Result<Run, Fail> {
         });
     }
     let mut child = cmd.spawn().map_err(|e| Fail::new(INCONCLUSIVE, format!("cannot start the binary: {e}")))?;
+    if let Some(pieces) = feed {
+        let mut si = child.stdin.take().unwrap();
+        std::thread::spawn(move || {
+            use std::io::Write;
+            for piece in pieces {
+                if si.write_all(&piece).is_err() || si.flush().is_err() {
+                    break;
+                }
+                std::thread::sleep(Duration::from_millis(40));
+            }
+        });
+    }
     let mut so = child.stdout.take().unwrap();
     let mut se = child.stderr.take().unwrap();
     let t1 = std::thread::spawn(move || {
@@ -548,7 +566,17 @@ fn check_enc(c: &EncCase, p: &mut Probe) -> Check {
             args.extend(sv(&["--puncturing", &pat_string(pt)]));
         }
     }
-    let run = run_cli(&args, Duration::from_secs(60))?;
+    // one valid case in four: the input is a pipe (the tool's standard input, named /dev/stdin) whose
+    // writer delivers the bytes in two or three pieces that end inside a word
+    let mut feed = None;
+    if matches!(c.fault, EncFault::None) && input.len() >= 2 && (words.len() * 7 + c.trailing + n) % 4 == 0 && std::path::Path::new("/dev/stdin").exists() {
+        let a = (input.len() * 3 / 7).clamp(1, input.len() - 1);
+        let b = (a + k / 2 + 1).min(input.len());
+        feed = Some(vec![input[..a].to_vec(), input[a..b].to_vec(), input[b..].to_vec()]);
+        args[2] = "/dev/stdin".into();
+        p.class("input-from-a-slow-pipe");
+    }
+    let run = run_cli_fed(&args, Duration::from_secs(60), feed)?;
     if !matches!(c.fault, EncFault::None) {
         p.class("encode-fault");
         expect_failure(&run, &format!("encode with {:?}", c.fault))?;
@@ -859,6 +887,105 @@ fn check_ber_long(which: &u8, p: &mut Probe) -> Check {
     Ok(())
 }
 
+/// hard decisions only (--max-iter 0) at 4 and 5 dB on a 4 x 12 code with an outer-code threshold of
+/// 1: frames with exactly one wrong systematic bit are 7 to 13 times as frequent as frames with two
+/// or more, so the LDPC-only statistics (which count them as frame errors) and the outer-code
+/// statistics (which do not) differ at every point, with certainty for all practical purposes
+/// (probability of no single-error frame while 20 multi-error frames are collected: < 1e-17).
+/// The result files are requested alone and together; a descending sweep is requested too.
+fn ber_files_cases(_t: Tier) -> Vec<u8> {
+    vec![0, 1, 2, 3, 4]
+}
+
+fn check_ber_files(which: &u8, p: &mut Probe) -> Check {
+    let s = Scratch::new();
+    let mut h = Mat::new(4, 12);
+    for (i, row) in [[0usize, 1, 3, 6], [1, 2, 4, 7], [0, 2, 5, 7], [3, 4, 5, 6]].iter().enumerate() {
+        for &j in row {
+            h.ones.push((i, j));
+        }
+    }
+    h.ones.push((0, 8));
+    for j in 1..4 {
+        h.ones.push((j, 8 + j));
+        h.ones.push((j, 8 + j - 1));
+    }
+    let (fa, fo, fl) = (s.path("h.alist"), s.path("out.txt"), s.path("out-ldpc.txt"));
+    std::fs::write(&fa, own_alist(&h, true)).map_err(|e| Fail::new(INCONCLUSIVE, format!("scratch write: {e}")))?;
+    let k = 8f64;
+    const FE: u64 = 20;
+    // which files are requested; the direction of the sweep
+    let (main, ldpc, descending) = match which {
+        0 => (false, true, false),
+        1 => (true, true, false),
+        2 => (true, false, false),
+        3 => (false, true, true),
+        _ => (true, false, true),
+    };
+    let mut args = sv(&["ber", &fa, "--frame-errors", &FE.to_string(), "--max-iter", "0", "--decoder", if which % 2 == 0 { "Phif64" } else { "HLAminstari8" }, "--bch-max-errors", "1"]);
+    let want_points: Vec<f64> = if descending { vec![5.0, 4.5, 4.0] } else { vec![4.0, 5.0] };
+    if descending {
+        args.extend(sv(&["--min-ebn0", "5.0", "--max-ebn0", "4.0", "--step-ebn0=-0.5"]));
+    } else {
+        args.extend(sv(&["--min-ebn0", "4.0", "--max-ebn0", "5.0", "--step-ebn0", "1.0"]));
+    }
+    if main {
+        args.extend(sv(&["--output-file", &fo]));
+    }
+    if ldpc {
+        args.extend(sv(&["--output-file-ldpc", &fl]));
+    }
+    let run = run_cli(&args, Duration::from_secs(120))?;
+    if run.code.is_none() {
+        return Err(Fail::new(INCONCLUSIVE, format!("{args:?} was killed (watchdog or memory cap); stderr: {}", run.stderr)));
+    }
+    if descending && run.code != Some(0) {
+        // a tool that refuses a negative step (with a message) does not contradict the property; one
+        // that accepts it owes a line for every point of min, min + step, ... down to max
+        p.class("descending-sweep-refused");
+        return expect_failure(&run, &format!("{args:?}"));
+    }
+    expect_success(&run, &format!("{args:?}"))?;
+    p.class_if(descending, "descending-sweep");
+    let read = |path: &str, what: &str| -> Result<Vec<Vec<String>>, Fail> {
+        let text = std::fs::read_to_string(path).map_err(|e| Fail::new("no-output-file", format!("{args:?}: {what} missing: {e}")))?;
+        let lines = parse_result_lines(&text);
+        ensure!(lines.len() == want_points.len(), "ber-lines", "{args:?}: {} result lines in the {what}, {} Eb/N0 points requested ({want_points:?}):\n{text}", lines.len(), want_points.len());
+        for (i, l) in lines.iter().enumerate() {
+            ensure!(l.len() == 11, "ber-columns", "{what}: result line has {} columns: {l:?}", l.len());
+            let f = |j: usize| l[j].parse::<f64>().map_err(|_| Fail::new("ber-parse", format!("{what}: cannot parse column {j} of {l:?}")));
+            ensure!((f(0)? - want_points[i]).abs() < 0.006, "ber-ebn0", "{what}: line {i} is for Eb/N0 {}, requested point is {}", l[0], want_points[i]);
+            let (frames, biterr, frerr) = (f(1)?, f(2)?, f(3)?);
+            ensure!(frames >= frerr && frerr >= 1.0 && biterr >= frerr && biterr <= k * frames, "ber-counts", "{what}: inconsistent counts in {l:?}");
+            let (wb, wf) = (biterr / (k * frames), frerr / frames);
+            ensure!((f(5)? - wb).abs() <= 0.006 * wb && (f(6)? - wf).abs() <= 0.006 * wf, "ber-ratio", "{what}: BER / FER columns are not the ratios of the counts in {l:?}");
+        }
+        Ok(lines)
+    };
+    let num = |l: &Vec<String>, j: usize| l[j].parse::<u64>().unwrap_or(0);
+    let lm = if main { Some(read(&fo, "output file")?) } else { None };
+    let ll = if ldpc { Some(read(&fl, "LDPC-only file")?) } else { None };
+    if let Some(lm) = &lm {
+        for l in lm {
+            ensure!(num(l, 3) == FE && num(l, 2) >= 2 * FE, "ber-stop", "output file (outer-code statistics, threshold 1): {} frame errors and {} bit errors reported; the point stops at exactly {FE} frame errors of at least 2 bit errors each: {l:?}", num(l, 3), num(l, 2));
+        }
+    }
+    if let Some(ll) = &ll {
+        for l in ll {
+            // inner-code statistics: the single-error frames are frame errors here
+            ensure!(num(l, 3) > FE && num(l, 2) < 2 * num(l, 3), "ldpc-file-not-ldpc-statistics", "LDPC-only file{}: {} frame errors with {} bit errors; with hard decisions at this Eb/N0 most wrong frames have exactly one wrong bit, which the outer code corrects and the inner-code statistics count: these are the outer code's numbers: {l:?}", if main { "" } else { " (requested without --output-file)" }, num(l, 3), num(l, 2));
+        }
+    }
+    if let (Some(lm), Some(ll)) = (&lm, &ll) {
+        for (a, b) in lm.iter().zip(ll) {
+            ensure!(a[1] == b[1], "ber-files-disagree", "frame counts differ between the two output files: {a:?} vs {b:?}");
+        }
+    }
+    p.inner += want_points.len() as u64;
+    p.nontrivial();
+    Ok(())
+}
+
 pub fn property() -> Property {
     Property {
         id: "C20",
@@ -907,6 +1034,13 @@ pub fn property() -> Property {
                 rule: "two fixed sweeps (Phif64; HLMinstarapproxi8 with an outer-code threshold) of two Eb/N0 points on a 4 x 12 code, --frame-errors quadrupled from 4000 until the whole sweep takes >= 1.6 s of wall time, i.e. each point outlasts the tool's 500 ms progress interval and intermediate reports precede the final one: still one line per point, frame errors exactly as requested, BER/FER equal to the ratios. Time only decides when to stop escalating, never the verdict",
                 cases: ber_long_cases,
                 check: check_ber_long,
+                exhaustive: false,
+            }),
+            Box::new(EnumSub {
+                name: "ber-result-files",
+                rule: "five fixed invocations on a 4 x 12 code with --max-iter 0 (hard decisions), --bch-max-errors 1, --frame-errors 20, at 4 and 5 dB, where frames with exactly one wrong systematic bit are 7-13 times as frequent as frames with more: (LDPC-only file alone, both files, main file alone) ascending, and (LDPC-only file alone, main file alone) as a descending sweep 5.0, 4.5, 4.0 dB with --step-ebn0=-0.5. One line per point in each requested file; main file: exactly 20 frame errors of >= 2 bit errors each; LDPC-only file: more than 20 frame errors and fewer than 2 bit errors per frame error (probability of a correct tool failing this < 1e-17 per line), whether or not the main file is requested; equal frame counts in both files; a descending sweep may instead be refused with a message and a non-zero status",
+                cases: ber_files_cases,
+                check: check_ber_files,
                 exhaustive: false,
             }),
         ],
